@@ -53,6 +53,7 @@ pub struct Agg {
     pub probes: BTreeMap<String, u64>,
     pub sim_ms: u64,
     pub steps: u64,
+    pub max_steps_one_run: u64,
     pub inconclusive: u64,
     pub other_props: BTreeMap<String, u64>,
     /// first detail seen per (other property, clause)
@@ -82,6 +83,7 @@ impl Agg {
         }
         self.sim_ms += r.sim_ms;
         self.steps += r.steps;
+        self.max_steps_one_run = self.max_steps_one_run.max(r.steps);
         if r.inconclusive {
             self.inconclusive += 1;
         }
@@ -131,6 +133,7 @@ impl Agg {
         }
         self.sim_ms += o.sim_ms;
         self.steps += o.steps;
+        self.max_steps_one_run = self.max_steps_one_run.max(o.max_steps_one_run);
         self.inconclusive += o.inconclusive;
         self.log_fold = self.log_fold.wrapping_add(o.log_fold);
         self.failures.extend(o.failures);
@@ -299,6 +302,7 @@ pub fn write_evidence(meta: &EvidenceMeta, agg: &Agg, wall_s: f64, violations: u
             "seeds_per_hour": runs_per_hour,
             "simulated_ms_covered": agg.sim_ms,
             "scheduler_steps": agg.steps,
+            "max_scheduler_steps_in_one_run": agg.max_steps_one_run,
             "faults_fired": agg.faults,
             "probes_hit": agg.probes,
             "inconclusive_runs": agg.inconclusive,
